@@ -551,6 +551,17 @@ impl Actor {
         }
     }
 
+    /// Verification hook: state of the active lookup for `target`, if any.
+    pub fn verif_lookup(
+        &self,
+        target: &Id,
+    ) -> Option<(Vec<Node>, Vec<Node>, Vec<SocketAddrV4>, Vec<u32>)> {
+        self.core
+            .iterative_queries
+            .get(target)
+            .map(|query| query.verif_state())
+    }
+
     /// Verification hook: the embedded server's stores.
     pub fn verif_server_dump(&self) -> crate::core::server::VerifServerDump {
         self.core.server.verif_dump()
